@@ -542,9 +542,12 @@ impl Container for DynamicContainer {
         }
         #[cfg(feature = "verif-hooks")] crate::verif_hooks::sched_point("dynamic.write.index-added");
 
-        // Persist the updated index to disk
+        // Persist the updated index to disk. Saving takes the exclusive lock:
+        // every bucket is written through the fixed temp file `<bucket>.tmp`, so
+        // two saves running side by side (both under a shared lock) would
+        // truncate and rename each other's temp file.
         {
-            let index = self.index.read();
+            let index = self.index.write();
             index.save_all()?;
         }
 
@@ -569,8 +572,8 @@ impl Container for DynamicContainer {
 
         if removed {
             debug!("removed key {} from index", hex::encode(&key[..9]));
-            // Persist the updated index
-            let index = self.index.read();
+            // Persist the updated index (exclusive lock: see write)
+            let index = self.index.write();
             index.save_all()?;
         }
 
